@@ -132,13 +132,17 @@ Record jparams := mkJP {
 
 Inductive jtree :=
 | JLeaf (ls : list labels) (sers : list (list sample)) (off : Z)
-| JJoin (p : jparams) (l r : jtree).
+| JJoin (p : jparams) (l r : jtree)
+(* a per-sample operator: instant functions, unary minus, vector/scalar arithmetic and
+   comparisons with a literal (Func.func_step); [drops] = the metric name is dropped *)
+| JMap (drops : bool) (f : Z -> option Z) (t : jtree).
 
 (* Series() of a node *)
 Fixpoint jseries (t : jtree) : list labels :=
   match t with
   | JLeaf ls _ _ => ls
   | JJoin p l r => op_series (jp_on p) (jp_ml p) (jp_incl p) (jp_card p) (jp_bool p) (jp_drops p) (jseries l) (jseries r)
+  | JMap drops _ t => map (fun m => if drops then del_name m else m) (jseries t)
   end.
 
 Fixpoint zip_vecs (L R : list (Z * list (nat * Z))) : list (Z * list (nat * Z) * list (nat * Z)) :=
@@ -161,6 +165,11 @@ Fixpoint jrun (cf : cfg) (w : window) (t : jtree) : list (Z * list (nat * Z)) + 
       | inr e, _ => inr e
       | _, inr e => inr e
       end
+  | JMap _ f t =>
+      match jrun cf w t with
+      | inl strm => inl (map (fun tv => (fst tv, func_step Z f (snd tv))) strm)
+      | inr e => inr e
+      end
   end.
 
 (* the reference at one timestamp *)
@@ -175,6 +184,14 @@ Fixpoint jref (lb : Z) (t : jtree) (ts : Z) : option (list (labels * Z)) :=
                    (jp_card p) (jp_bool p) L R
       | _, _ => None
       end
+  | JMap drops f t =>
+      match jref lb t ts with
+      | Some smp => Some (flat_map (fun mv => match f (snd mv) with
+                                            | Some v => [((if drops then del_name (fst mv) else fst mv), v)]
+                                            | None => []
+                                            end) smp)
+      | None => None
+      end
   end.
 
 Fixpoint jok (t : jtree) : Prop :=
@@ -184,7 +201,23 @@ Fixpoint jok (t : jtree) : Prop :=
       jok l /\ jok r /\
       one_side_unique (jp_on p) (jp_ml p) (one_side_series (jp_card p) (jseries l) (jseries r)) /\
       (is_one_to_one (jp_card p) = true -> jp_incl p = [])
+  | JMap _ _ t => jok t
   end.
+
+Lemma nth_map_labels (g : labels -> labels) (l : list labels) i : (i < length l)%nat ->
+  nth i (map g l) [] = g (nth i l []).
+Proof. intros Hi. rewrite (nth_indep _ [] (g [])) by (rewrite map_length; assumption). apply map_nth. Qed.
+
+Lemma func_step_fst (f : Z -> option Z) (vec : list (nat * Z)) :
+  map fst (func_step Z f vec) = map fst (filter (fun iv => match f (snd iv) with Some _ => true | None => false end) vec).
+Proof. unfold func_step. induction vec as [|iv vec IH]; simpl; [reflexivity|]. destruct (f (snd iv)); simpl; rewrite IH; reflexivity. Qed.
+
+Lemma NoDup_map_filter {A B} (g : A -> B) (p : A -> bool) (l : list A) : NoDup (map g l) -> NoDup (map g (filter p l)).
+Proof.
+  induction l as [|a l IH]; simpl; intros H; [constructor|]. inversion H as [|? ? Hn Hnd]; subst.
+  destruct (p a); simpl; [|apply IH; assumption]. constructor; [|apply IH; assumption].
+  intros Hin. apply Hn. apply in_map_iff in Hin. destruct Hin as [x [Ex Hx]]. apply filter_In in Hx. rewrite <- Ex. apply in_map. tauto.
+Qed.
 
 Lemma zip_vecs_map (fl fr : Z -> list (nat * Z)) (g : list Z) :
   zip_vecs (map (fun ts => (ts, fl ts)) g) (map (fun ts => (ts, fr ts)) g) = map (fun ts => (ts, fl ts, fr ts)) g.
@@ -214,7 +247,7 @@ Theorem jtree_matches_reference cf w :
     forall ts, good_vec (length (jseries t)) (f ts) /\
                forall R, jref (c_lookback cf) t ts = Some R -> Permutation (labelled Z (jseries t) (f ts)) R.
 Proof.
-  intros HN HB Hlb Hw Hstart. induction t as [ls sers off|p l IHl r IHr]; intros Hok.
+  intros HN HB Hlb Hw Hstart. induction t as [ls sers off|p l IHl r IHr|drops f t IH]; intros Hok.
   - destruct Hok as [Hlen Hs]. exists (fun ts => vec_of (select_step (c_lookback cf) off sers ts)). split.
     + cbn [jrun]. rewrite (run_covers_grid cf w (PSelect sers off) HN HB Hlb Hw Hs). simpl denote. rewrite map_map.
       f_equal. apply map_ext. intros ts. rewrite select_step_T. reflexivity.
@@ -261,4 +294,25 @@ Proof.
         pose proof (join_step_permutation Z (jp_op p) (jp_b2v p) (jp_on p) (jp_ml p) (jp_incl p) (jp_card p) (jp_bool p) (jp_drops p)
                       0 (jseries l) (jseries r) HA Hincl (ts, fl ts, fr ts) out' (Hgood ts) Href') as Pstep.
         eapply Permutation_trans; [exact Pstep|apply Permutation_sym; exact Pout].
+  - destruct (IH Hok) as [g [Eg Pg]].
+    exists (fun ts => func_step Z f (g ts)). split.
+    + cbn [jrun]. rewrite Eg. rewrite map_map. reflexivity.
+    + intros ts. destruct (Pg ts) as [[G1 G2] PG]. split.
+      * split.
+        -- intros iv Hiv. simpl. rewrite map_length. unfold func_step in Hiv. apply in_flat_map in Hiv.
+           destruct Hiv as [x [Hx Hiv]]. destruct (f (snd x)); [|destruct Hiv]. destruct Hiv as [<-|[]]. simpl. apply G1. assumption.
+        -- rewrite func_step_fst. apply NoDup_map_filter. assumption.
+      * intros R HR. simpl in HR. destruct (jref (c_lookback cf) t ts) as [S0|] eqn:ES; [|discriminate].
+        inversion HR; subst R. clear HR. specialize (PG S0 eq_refl).
+        assert (E : labelled Z (jseries (JMap drops f t)) (func_step Z f (g ts)) =
+                    flat_map (fun mv => match f (snd mv) with
+                                        | Some v => [((if drops then del_name (fst mv) else fst mv), v)]
+                                        | None => []
+                                        end) (labelled Z (jseries t) (g ts))).
+        { unfold labelled, func_step. simpl jseries. generalize G1. generalize (g ts). intros vec Hr.
+          induction vec as [|iv vec IHv]; simpl; [reflexivity|].
+          rewrite map_app, IHv by (intros x Hx; apply Hr; right; assumption).
+          destruct (f (snd iv)) as [v|]; simpl; [|reflexivity]. f_equal. f_equal.
+          apply nth_map_labels. apply Hr. left. reflexivity. }
+        rewrite E. apply Permutation_flat_map. exact PG.
 Qed.
